@@ -11,6 +11,7 @@
    events are what reqwest/hyper/tokio deliver, persist is one step by the kernel's rename
    atomicity, a concurrently writing second process is outside the model. *)
 From RM Require Import C09.Grammar C10.Model C16.Model C16.Proofs C16.Rehit C16.Driver C16.Shared C16.SharedProofs C16.SharedProofs2 C16.Refine Gen.C16Ops.
+From RM Require C09.Model C10.Stream C16.Stream C16.StreamProofs C16.StreamInst C16.StreamProofs2 C16.StreamPins C16.StaleFlag.
 Open Scope Z_scope.
 
 Section Statements.
@@ -390,3 +391,175 @@ Theorem c16_shared_new_entry_provenance :
                        cc = cached_form body (url_of T (ms_cl s i)).
 Proof. exact (fun T parse c0 => shared_new_entry_provenance T parse create_ops commit_ops eq_refl eq_refl c0). Qed.
 Print Assumptions c16_shared_new_entry_provenance.
+
+(* ================================================================================================
+   Round 5: the download with the REAL streaming parser inside (C16/Stream.v).
+   Above, the parser is a function of the whole byte string and "the temp file holds all bytes received" is a
+   simplification.  Here fetch_symbol_file is composed with the loop of SymbolFile::parse_async itself
+   (C10/Stream.v [step_stream]: circular buffer indices, fully_consumed / tried_to_grow / recovery flags, the refill
+   block that skips empty chunks) and with the tee callback: the body is a script of what `response.chunk().await`
+   returns — chunks of ANY size, EMPTY chunks, a failure at any point — the loop decides by itself when the body has
+   ended (a 0-byte read with `fully_consumed` set), every callback call writes to the temp file (or gives up caching
+   when the write fails), and commit_cache_file runs only after Ok.  Generic in the recogniser (parse_more's verdict on
+   one complete line) and in finish().  [b] is what the body delivers; [split b] its lines and unterminated rest. *)
+Module S := RM.C16.Stream.
+Module SP := RM.C16.StreamProofs.
+
+(* ONE download, every body script, every outcome of every file-system call:
+   - tmp is as before and no other cache path is touched, whatever happens;
+   - Ok is returned only if the body did not fail, the loop returned Ok, and the callback had been given EVERY byte of
+     the body (cbsum = |b|: the loop never takes a 0-byte read for the end of the body while bytes are outstanding);
+     the cache path then holds cached_form b u (the WHOLE body + note), or is unchanged (caching given up / commit
+     failed early), or — an older entry was removed and persist failed — is empty;
+   - every error leaves the whole cache untouched. *)
+Theorem c16_stream_entry_only_from_whole_body :
+  forall (L : Type) (llen : L -> Z) (PS : Type) (init_ps : PS) (recog : PS -> L -> PS + Z) (bump : PS -> PS)
+         (lineno : PS -> Z) (T : Type) (finish : PS -> option T) (split : bytes -> list L * Z) (p : path),
+  (forall l, 1 <= llen l) ->
+  forall e u f b script,
+  SP.split_ok L llen split b -> C10.Stream.delivered script = Z.of_nat (length b) ->
+  let f' := fst (S.stream_fetch L llen PS init_ps recog bump lineno T finish split p e u f b script) in
+  tmp f' = tmp f /\ (forall q, q <> p -> cache f' q = cache f q) /\
+  match snd (S.stream_fetch L llen PS init_ps recog bump lineno T finish split p e u f b script) with
+  | S.FOk t =>
+      C10.Stream.fails script = false /\
+      (exists ps x, C10.Stream.drive_stream L llen PS init_ps recog bump lineno (fst (split b)) (snd (split b)) script
+                    = Ret (C09.Model.ROk ps, x) /\
+                    finish ps = Some t /\ C09.Model.cbsum (C10.Stream.core x) = Z.of_nat (length b)) /\
+      commit_post p f f' b u
+  | S.FErr c =>
+      cache_eq f' f /\
+      exists ln x, C10.Stream.drive_stream L llen PS init_ps recog bump lineno (fst (split b)) (snd (split b)) script
+                   = Ret (C09.Model.RErr c ln, x)
+  | S.FPanic => cache_eq f' f
+  | S.FFuel => False
+  end.
+Proof. exact SP.stream_fetch_cases. Qed.
+Print Assumptions c16_stream_entry_only_from_whole_body.
+
+(* Lines shorter than 80 KiB: the verdict of the download is the schedule-free verdict of the whole body — the same for
+   every chunking (pieces ending exactly at line ends, empty chunks, one byte at a time, ...). *)
+Theorem c16_stream_verdict_chunk_independent :
+  forall (L : Type) (llen : L -> Z) (PS : Type) (init_ps : PS) (recog : PS -> L -> PS + Z) (bump : PS -> PS)
+         (lineno : PS -> Z) (T : Type) (finish : PS -> option T) (split : bytes -> list L * Z) (p : path),
+  (forall l, 1 <= llen l) ->
+  forall e u f b script,
+  SP.split_ok L llen split b -> C10.Stream.delivered script = Z.of_nat (length b) ->
+  short_lines llen (fst (split b)) (snd (split b)) -> C10.Stream.fails script = false ->
+  snd (S.stream_fetch L llen PS init_ps recog bump lineno T finish split p e u f b script)
+  = SP.verdict L PS init_ps recog lineno T finish (fst (split b)) (snd (split b)).
+Proof. exact SP.stream_fetch_verdict. Qed.
+Print Assumptions c16_stream_verdict_chunk_independent.
+
+(* ALL inputs: a body that fails (connection cut, framing error, timeout) never yields Ok and leaves cache and tmp as
+   they were — also when the bytes delivered so far happen to be a well-formed shorter file. *)
+Theorem c16_stream_failed_body_leaves_nothing :
+  forall (L : Type) (llen : L -> Z) (PS : Type) (init_ps : PS) (recog : PS -> L -> PS + Z) (bump : PS -> PS)
+         (lineno : PS -> Z) (T : Type) (finish : PS -> option T) (split : bytes -> list L * Z) (p : path),
+  (forall l, 1 <= llen l) ->
+  forall e u f b script,
+  SP.split_ok L llen split b -> C10.Stream.delivered script = Z.of_nat (length b) -> C10.Stream.fails script = true ->
+  SP.unchanged f (fst (S.stream_fetch L llen PS init_ps recog bump lineno T finish split p e u f b script)) /\
+  forall t, snd (S.stream_fetch L llen PS init_ps recog bump lineno T finish split p e u f b script) <> S.FOk t.
+Proof. exact SP.stream_fetch_failed_body. Qed.
+Print Assumptions c16_stream_failed_body_leaves_nothing.
+
+(* The future dropped after ANY number of loop iterations (the loop's only await is response.chunk()): cache and tmp as
+   before; while in flight: at most our one temp file.  (`_partial` for the same reason as above: that the drop of the
+   future's locals removes the NamedTempFile is a definition — drop_temp — here too.) *)
+Theorem c16_stream_dropped_leaves_nothing_partial :
+  forall (L : Type) (llen : L -> Z) (PS : Type) (init_ps : PS) (recog : PS -> L -> PS + Z) (bump : PS -> PS)
+         (lineno : PS -> Z) (split : bytes -> list L * Z) (p : path) e f b script k,
+  SP.unchanged f (S.stream_fetch_dropped L llen PS init_ps recog bump lineno split p e f b script k) /\
+  let g := S.stream_fetch_inflight L llen PS init_ps recog bump lineno split p e f b script k in
+  cache_eq g f /\ (tmp g = tmp f \/ exists n c, n = fresh (tmp f) /\ tmp g = (n, c) :: tmp f).
+Proof.
+  intros. split; [apply SP.stream_fetch_dropped_clean|apply SP.stream_fetch_inflight_one].
+Qed.
+Print Assumptions c16_stream_dropped_leaves_nothing_partial.
+
+(* The loop these theorems are about is the loop of the SOURCE: [step_stream] equals the function assembled from the
+   conditions, flag updates and buffer arithmetic that translate/symfile_loop.py extracts from parse_async
+   (coq/Gen/SymFileLoop.v, the async_ definitions) and the refill block that translate/c10_stream.py extracts (coq/Gen/C10Stream.v). *)
+Theorem c16_stream_loop_is_source :
+  forall (L : Type) (llen : L -> Z) (PS : Type) (recog : PS -> L -> PS + Z) (bump : PS -> PS) (lineno : PS -> Z) x,
+  C10.Stream.step_stream L llen PS recog bump lineno x = RM.C16.StreamPins.step_stream_src L llen PS recog bump lineno x.
+Proof. exact RM.C16.StreamPins.step_stream_is_source. Qed.
+Print Assumptions c16_stream_loop_is_source.
+
+(* The model of the real parser (C09/Grammar.v) as the recogniser: the download under ANY chunking followed by a cache hit
+   (the whole-file parse of the entry): the entry is the whole body + note, and reading it back gives the table the
+   download returned and the URL of the note.  Lines < 80 KiB; url_ok as in c16_rehit_same. *)
+Theorem c16_stream_download_then_cache_hit :
+  forall p e u f b script t c,
+  RM.C16.StreamProofs2.short_bytes b -> url_ok u -> C10.Stream.delivered script = Z.of_nat (length b) ->
+  snd (RM.C16.StreamInst.stream_fetch_c p e u f b script) = S.FOk t ->
+  cache (fst (RM.C16.StreamInst.stream_fetch_c p e u f b script)) p = Some (File c) ->
+  cache f p <> Some (File c) ->
+  c = cached_form b u /\ parse_bytes c = Some (set_url t None, Some u).
+Proof. exact RM.C16.StreamProofs2.stream_then_rehit. Qed.
+Print Assumptions c16_stream_download_then_cache_hit.
+
+(* non-vacuity.  `MODULE a b c d / FILE 1 x / PUBLIC 20 0 g` (38 bytes) delivered as [15 bytes = exactly the first line;
+   an EMPTY chunk; the other 23 bytes]: Ok, one PUBLIC, entry = whole body + note, tmp empty. *)
+Definition ex_sbody : bytes :=
+  [77;79;68;85;76;69;32;97;32;98;32;99;32;100;10; 70;73;76;69;32;49;32;120;10; 80;85;66;76;73;67;32;50;48;32;48;32;103;10].
+Definition ex_senv : env := mkenv true true (fun _ => true) true true.
+Definition ex_sfs : fs := mkfs (fun _ => None) (fun _ => false) [].
+
+Example c16_nonvacuous_stream_aligned_pieces :
+  let script := [C10.Stream.SChunk 15; C10.Stream.SChunk 0; C10.Stream.SChunk 23] in
+  let r := RM.C16.StreamInst.stream_fetch_c 7 ex_senv [104] ex_sfs ex_sbody script in
+  C10.Stream.delivered script = Z.of_nat (length ex_sbody) /\ C10.Stream.fails script = false /\
+  (exists t, snd r = S.FOk t /\ length (t_publics t) = 1%nat) /\
+  cache (fst r) 7 = Some (File (cached_form ex_sbody [104])) /\ tmp (fst r) = [].
+Proof.
+  vm_compute. split; [reflexivity|]. split; [reflexivity|]. split; [eexists; split; reflexivity|]. split; reflexivity.
+Qed.
+
+Example c16_nonvacuous_stream_short_bytes : RM.C16.StreamProofs2.short_bytes ex_sbody /\ url_ok [104].
+Proof.
+  split.
+  - unfold RM.C16.StreamProofs2.short_bytes, short_lines.
+    set (sp := RM.C16.StreamInst.split_c ex_sbody). vm_compute in sp. subst sp. cbn [fst snd]. split.
+    + repeat (apply Forall_cons; [apply Z.leb_le; vm_compute; reflexivity|]). apply Forall_nil.
+    + apply Z.ltb_lt. vm_compute. reflexivity.
+  - unfold url_ok. split; [repeat constructor; discriminate|]. split; vm_compute; reflexivity.
+Qed.
+
+(* the class of seeded/C16-7: the first piece ends exactly at a line end and everything before it is parsed
+   (fully_consumed = true); the rest of the body is an unterminated record.  The loop must not take the 0-byte read
+   at the end of the body for a clean EOF: error 4 (unexpected EOF), nothing cached, tmp empty. *)
+Example c16_nonvacuous_stream_aligned_then_unterminated :
+  let b := firstn 23 ex_sbody in
+  let script := [C10.Stream.SChunk 15; C10.Stream.SChunk 8] in
+  let r := RM.C16.StreamInst.stream_fetch_c 7 ex_senv [104] ex_sfs b script in
+  C10.Stream.delivered script = Z.of_nat (length b) /\ snd r = S.FErr 4 /\ cache (fst r) 7 = None /\ tmp (fst r) = [].
+Proof. vm_compute. repeat split; reflexivity. Qed.
+
+(* the body fails after the first line (a well-formed one-line file has been delivered): load error, nothing cached *)
+Example c16_nonvacuous_stream_failed_body :
+  let b := firstn 15 ex_sbody in
+  let script := [C10.Stream.SChunk 15; C10.Stream.SFail; C10.Stream.SChunk 23] in
+  let r := RM.C16.StreamInst.stream_fetch_c 7 ex_senv [104] ex_sfs b script in
+  C10.Stream.delivered script = Z.of_nat (length b) /\ C10.Stream.fails script = true /\
+  snd r = S.FErr 8 /\ cache (fst r) 7 = None /\ tmp (fst r) = [].
+Proof. vm_compute. repeat split; reflexivity. Qed.
+
+(* The class of seeded/C16-7 stated on the model (C16/StaleFlag.v: the loop with a fast path `if consumed == 0 { continue; }`
+   in front of the bookkeeping after parse_more, so that fully_consumed keeps the previous iteration's value).
+   `MODULE a b c d\n` + `FILE 1 x` without a final newline, delivered as [the first line] [the rest]: that loop returns Ok
+   after handing the callback — the cache writer — 15 of the 23 bytes, so a truncated file would be committed; the loop of the
+   source (drive_stream) answers error 4, "unexpected EOF".  c16_stream_entry_only_from_whole_body is what excludes this
+   for the loop the translators extract from the source, for every input and chunking. *)
+Theorem c16_stale_flag_refuted :
+  let SF := RM.C16.StaleFlag.stale_body in
+  let script := RM.C16.StaleFlag.stale_script in
+  C10.Stream.delivered script = Z.of_nat (length SF) /\ C10.Stream.fails script = false /\
+  (exists q x, RM.C16.StaleFlag.iter_stale rle cllen C09.Grammar.pst recog_pst bump_pst lineno_pst 20
+                 (C10.Stream.init_stream rle cllen C09.Grammar.pst init_pst (fst (RM.C16.StreamInst.split_c SF)) (snd (RM.C16.StreamInst.split_c SF)) script)
+               = C10.Stream.SDone (C09.Model.ROk q) x /\ C09.Model.cbsum (C10.Stream.core x) = 15) /\
+  (exists x, C10.Stream.drive_stream rle cllen C09.Grammar.pst init_pst recog_pst bump_pst lineno_pst
+               (fst (RM.C16.StreamInst.split_c SF)) (snd (RM.C16.StreamInst.split_c SF)) script = Ret (C09.Model.RErr 4 1, x)).
+Proof. exact RM.C16.StaleFlag.stale_flag_refuted. Qed.
+Print Assumptions c16_stale_flag_refuted.
